@@ -133,16 +133,25 @@ def changeCaseAux (m : CaseMode) : CaseState → List Tok → Str
 /-- `change_case`. -/
 def changeCase (s : Str) (m : CaseMode) : Option Str := (scan s).map (changeCaseAux m .start)
 
-/-- `bibtex_width` over a width table (`charwidths.get(c, 0)`). -/
-def widthTok (w : Char → Int) (t : Tok) : Int :=
-  if t.2 = 1 ∧ startsWithBackslash t.1 then
+/-- `bibtex_width` over a width table (`charwidths.get(c, 0)`): what one item of the scan adds.
+After the repair proposed_fixes/C03-2 a brace-level-1 item that starts with a backslash is the text
+of a special character only when it directly follows the item `('{', 1)` of the brace that opens it
+(`afterOpen` = `previous == ('{', 1)`); a backslash further inside an ordinary group, which the
+scanner hands out as an item of its own, counts with its own width like every other character. -/
+def widthTok (w : Char → Int) (afterOpen : Bool) (t : Tok) : Int :=
+  if t.2 = 1 ∧ startsWithBackslash t.1 ∧ afterOpen = true then
     ((t.1.drop 2).filter fun c => c ≠ '{' ∧ c ≠ '}').foldl (fun a c => a + w c) 0 - 1000
   else match t.1 with
     | [c] => w c
     | _ => 0
 
+/-- the loop of `bibtex_width` over the items of the scan -/
+def widthToks (w : Char → Int) : Bool → List Tok → Int
+  | _, [] => 0
+  | afterOpen, t :: r => widthTok w afterOpen t + widthToks w (decide (t = (['{'], 1))) r
+
 def bibtexWidth (w : Char → Int) (s : Str) : Option Int :=
-  (scan s).map fun toks => toks.foldl (fun a t => a + widthTok w t) 0
+  (scan s).map fun toks => widthToks w false toks
 
 /-! ### `_find_closing_brace` and `split_tex_string` -/
 
